@@ -13,6 +13,10 @@ reports with a frame in the library are violations.
    the families' own case formats (their own TLC generator configurations, plus cases taken from the traces their drivers
    record) through copies of their per-operation functions (tools/conc_sync.py; a drift guard compares the copies with the
    family drivers event by event) and each goroutine's trace is judged by the family's own trace specification.
+   Values: per-goroutine values throughout; in addition every goroutine calls the identity getters on the SAME decoded
+   5GS mobile identity elements (f12), some goroutines cipher / MAC under the SAME key and others under different keys
+   at the same time (f06, f07), and family fmsg lets all goroutines read (project, re-encode) messages decoded before
+   they started while the owner of each receive buffer ciphers that buffer in place (cmd/codec's Shared events, Trace_C19).
    Schedules: aligned (all goroutines in the same operation kind at the same time, different argument values), staggered,
    alternating.  A mismatch counts only if the same cases, run single-threaded in a fresh process in that goroutine's exact
    order, do not produce the same event (otherwise it is the family's own finding)."""
@@ -421,6 +425,7 @@ def run(c):
     c.cov["rule"] = ("cases = events of library calls made concurrently (codec family + %s); distinct non-trivial = distinct (family, configuration, goroutine) traces, "
                      "each validated in full by TLC against the family's sequential specification" % ", ".join(f.name for f in fams))
     c.assumptions += ["schedules are sampled, not enumerated", "race detector happens-before analysis",
+                      "a goroutine may go on using (ciphering in place) the buffer a shared message was decoded from: buffer and decoded message are distinct values",
                       "stateful objects (NAS COUNT, identifier allocator) are outside: the property is about independent values",
                       "a mismatch on a concurrent trace counts only if a single-threaded run of the same case in a fresh process does not show it"]
 
